@@ -290,6 +290,15 @@ func genC11(e *emitter, r *rng, thorough bool) {
 		for l := 0; l <= 20; l++ {
 			e.emit("cfb.dec.short", "cfb.dec "+hx(key)+" "+hx(r.bytes(l)))
 		}
+		// ciphertexts whose CFB plaintext is a CHOSEN text that is not (quite) base64: stray and misplaced '=', lengths that
+		// are not a multiple of four, line breaks, characters outside the alphabet (built with the standard library's CFB)
+		for _, txt := range []string{"AAAA=", "QUJDREVG=", "QUJDREVG\n=", "QUJDREVG==", "A", "AA", "AAA", "=", "==", "===", "====", "A===", "AA=A", "AAA=A",
+			"QUJD\nREVG", "QUJD REVG", "QUJD\r\nREVG", "QUJD-REV", "QUJD_REV", "QUJDREV", "QUJDRE", "QUJDR", "QQ==", "QR==", "QUI=", "QUJ=", "\xff\xff\xff\xff", ""} {
+			iv := r.bytes(16)
+			ct := make([]byte, len(txt))
+			cipher.NewCFBEncrypter(blk, iv).XORKeyStream(ct, []byte(txt))
+			e.emit("cfb.dec.chosen-text", "cfb.dec "+hx(key)+" "+hx(append(append([]byte{}, iv...), ct...)))
+		}
 		tape := runWithGenTape(r, 0, func() { _, _ = crypto.Encrypt(blk, []byte("abc")) })
 		e.emit("cfb.enc.failread", fmt.Sprintf("cfb.enc %s %s %s", hx(key), hx([]byte("abc")), tape))
 	}
